@@ -21,6 +21,18 @@ def default_headers(fingerprint_hex="f075dd2f6f4cb3bd76134bbb81b6ca16ef9cd589", 
     return bytes([0x04, 0x00, 0x16, 0x08]) + len(sub).to_bytes(2, "big") + sub
 
 
+def rich_headers(fingerprint_hex, t, subpackets):
+    """A well-formed v4 hashed area with further subpackets a real signer can emit; `subpackets` is a list of
+    (type, critical, data bytes): 3 = signature expiration time, 9 = key expiration, 20 = notation data, 26 = policy URI,
+    27 = key flags, 28 = signer's user id ...  Whatever they say, they are only bytes that go into the digest."""
+    sub = bytes([0x16, 0x21, 0x04]) + bytes.fromhex(fingerprint_hex) + bytes([0x05, 0x02]) + t.to_bytes(4, "big")
+    for typ, critical, data in subpackets:
+        body = bytes([typ | (0x80 if critical else 0)]) + bytes(data)
+        n = len(body)
+        sub += (bytes([n]) if n < 192 else bytes([((n - 192) >> 8) + 192, (n - 192) & 0xFF]) if n < 8384 else b"\xff" + n.to_bytes(4, "big")) + body
+    return bytes([0x04, 0x00, 0x16, 0x08]) + len(sub).to_bytes(2, "big") + sub
+
+
 def entry(seed, payload, headers=None, see_also=None, signer=None):
     if headers is None:
         headers = default_headers()
